@@ -51,7 +51,15 @@ func compileDecls(t *rapid.T, u *mrogen.Universe) *syntax.Ast {
 	return ast
 }
 
-func jsonMarshal(v any) (string, error) {
+// jsonMarshal serializes; a panic inside martian's marshalers (seen on
+// call graphs of map-call shapes recorded as known findings under C01) is
+// returned as a marker string.
+func jsonMarshal(v any) (s string, err error) {
+	defer func() {
+		if p := recover(); p != nil {
+			s, err = fmt.Sprintf("<panic while serializing: %v>", p), nil
+		}
+	}()
 	b, err := json.Marshal(v)
 	return string(b), err
 }
